@@ -43,7 +43,7 @@ Feeds      == ToSet(Inst.feeds)      \* [to, tp, values]
 Pre        == ToSet(Inst.pre)        \* ids of output files present before the run
 Faults     == Inst.faults            \* task key "proc:sig" -> fault kind
 FaultOf(k) == IF k \in DOMAIN Faults THEN Faults[k] ELSE "none"
-CmdFaults  == {"exit_before_write", "exit_after_partial", "exit_after_all", "sigkill_self", "sigkill_shell", "sigkill_after_all", "exit_after_all_noisy"}
+CmdFaults  == {"exit_before_write", "exit_after_partial", "exit_after_all", "sigkill_self", "sigterm_self", "sigint_self", "sigkill_shell", "sigkill_after_all", "exit_after_all_noisy"}
 
 PortId(n, port) == n \o "." \o port
 SeqPorts(n, s)  == {PortId(n, s[i]) : i \in DOMAIN s}
